@@ -1,6 +1,7 @@
 package updog
 
 import (
+	"errors"
 	"fmt"
 	"math/bits"
 	"sort"
@@ -33,6 +34,10 @@ func (idx *Index) Execute(q *Query) (*Result, error) {
 		}(time.Now())
 	}
 
+	if err := validateExpr(q.Expr); err != nil {
+		return nil, err
+	}
+
 	idx.mtx.RLock()
 	defer idx.mtx.RUnlock()
 
@@ -49,6 +54,44 @@ func (idx *Index) Execute(q *Query) (*Result, error) {
 		Count:  result.GetCardinality(),
 		Groups: q.groupBy(result, idx),
 	}, nil
+}
+
+// validateExpr rejects expression trees with missing nodes (no expression at all,
+// NOT without operand, nil operands of AND/OR), which cannot be evaluated.
+func validateExpr(e Expression) error {
+	switch v := e.(type) {
+	case nil:
+		return errors.New("incomplete query: missing expression")
+	case *ExprEqual:
+		if v == nil {
+			return errors.New("incomplete query: missing expression")
+		}
+	case *ExprNot:
+		if v == nil {
+			return errors.New("incomplete query: missing expression")
+		}
+		return validateExpr(v.Expr)
+	case *ExprAnd:
+		if v == nil {
+			return errors.New("incomplete query: missing expression")
+		}
+		for _, op := range v.Exprs {
+			if err := validateExpr(op); err != nil {
+				return err
+			}
+		}
+	case *ExprOr:
+		if v == nil {
+			return errors.New("incomplete query: missing expression")
+		}
+		for _, op := range v.Exprs {
+			if err := validateExpr(op); err != nil {
+				return err
+			}
+		}
+	}
+
+	return nil
 }
 
 // Result contains the query result.
